@@ -1,10 +1,12 @@
 import OrdModel.Proofs.SatSpecLemmas
+import OrdModel.Proofs.SatRarityCount
+import OrdModel.Proofs.SatRarityCharms
 /-!
 # C29 — Sat numbering matches block heights and derived attributes
 
 Property theorems only.  Model: `OrdModel/Num/{Epoch,Height,Sat,Degree}.lean` (the code),
 `OrdModel/Num/SatSpec.lean` (specification-level definitions); helper lemmas:
-`OrdModel/Proofs/Sat*.lean`.
+`OrdModel/Proofs/Sat*.lean` (rarity / supply census / charms: `Proofs/SatRarity*.lean`).
 -/
 namespace Ord.C29
 open Ord Ord.Epoch
@@ -72,21 +74,141 @@ theorem c29_attributes (h k : Nat) (hh : h < 6930000) (hk : k < Height.subsidy h
     Degree.ofSatO (Height.startingSat h + k) = .ok ⟨h / 1260000, h % 210000, h % 2016, k⟩ ∧
     Sat.decimalO (Height.startingSat h + k) = .ok (h, k) ∧
     Rarity.ofSatO (Height.startingSat h + k) = .ok (Rarity.ofDegree ⟨h / 1260000, h % 210000, h % 2016, k⟩) := by
-  obtain ⟨hlt, hH, hT, hE⟩ := Sat.compose h k hh hk
-  have e1 : Sat.heightO (Height.startingSat h + k) = .ok h := by rw [Sat.heightO_ok _ hlt, hH]
-  have e2 : Sat.thirdO (Height.startingSat h + k) = .ok k := by rw [Sat.thirdO_ok _ hlt, hT]
-  have e3 : Degree.ofSatO (Height.startingSat h + k) = .ok ⟨h / 1260000, h % 210000, h % 2016, k⟩ := by
-    unfold Degree.ofSatO; rw [e1, e2]; rfl
-  refine ⟨hE, ?_, ?_, e3, ?_, ?_⟩
-  · unfold Sat.cycle CYCLE_EPOCHS; rw [hE, Nat.div_div_eq_div_mul]
-  · unfold Sat.periodO; rw [e1]; rfl
-  · unfold Sat.decimalO; rw [e1, e2]
-  · unfold Rarity.ofSatO; rw [e3]
+  exact Sat.attributes h k hh hk
+
+
+/-! ## Rarity, the rarity supply table, charms -/
+
+/-- `Sat::common` (fast path first, then the full calculation) says exactly whether the sat is
+*not* the first sat of its block, i.e. whether `Sat::rarity` is `Common` — for every sat below the
+supply.  The shortcut on its own never misclassifies: a sat below the start of epoch 10 that is
+not a multiple of the epoch-9 subsidy (9 765 625) has a non-zero offset in its block. -/
+theorem c29_common_fast_path (s : Nat) (hs : s < SUPPLY) :
+    ∃ k, Sat.thirdO s = .ok k ∧
+      (Sat.common s = true ↔ k ≠ 0) ∧
+      (Sat.common s = true ↔ Rarity.ofSatO s = .ok .common) ∧
+      (s < Epoch.startingSat 10 → ¬ Epoch.subsidy 9 ∣ s → k ≠ 0) := by
+  refine ⟨Sat.thirdN s, Sat.thirdO_ok s hs, ?_, ?_, ?_⟩
+  · rw [Sat.common_eq s hs]; simp
+  · rw [Sat.common_eq s hs, Sat.rarityO_ok s hs, Outcome.ok.injEq,
+      (SatSpec.rarity_iff (Sat.heightN s) (Sat.thirdN s)).1]
+    simp
+  · intro h1 h2
+    rw [Epoch.subsidy_nine] at h2
+    exact Sat.fast_path_sound s h1 (fun h0 => h2 (Nat.dvd_of_mod_eq_zero h0))
+
+/-- `Rarity::from(Sat)` (the if-chain over the degree) is the documented classification of the
+`k`-th sat of block `h`: common = not the first sat of its block; otherwise mythic = sat 0,
+legendary = first sat of a cycle (height a multiple of 1 260 000), epic = first sat of a halving
+epoch (multiple of 210 000), rare = first sat of a difficulty period (multiple of 2016), uncommon =
+first sat of any other block — each class excluding the rarer ones, as in the code. -/
+theorem c29_rarity_classes (h k s : Nat) (hh : h < 6930000) (hk : k < Height.subsidy h)
+    (hs : s = Height.startingSat h + k) :
+    Rarity.ofSatO s = .ok (SatSpec.rarity h k) ∧
+    (Rarity.ofSatO s = .ok .common ↔ k ≠ 0) ∧
+    (Rarity.ofSatO s = .ok .uncommon ↔ k = 0 ∧ h % 2016 ≠ 0 ∧ h % 210000 ≠ 0) ∧
+    (Rarity.ofSatO s = .ok .rare ↔ k = 0 ∧ h % 2016 = 0 ∧ h % 210000 ≠ 0) ∧
+    (Rarity.ofSatO s = .ok .epic ↔ k = 0 ∧ h % 210000 = 0 ∧ h % 1260000 ≠ 0) ∧
+    (Rarity.ofSatO s = .ok .legendary ↔ k = 0 ∧ h % 1260000 = 0 ∧ h ≠ 0) ∧
+    (Rarity.ofSatO s = .ok .mythic ↔ k = 0 ∧ h = 0) ∧
+    (Rarity.ofSatO s = .ok .mythic ↔ s = 0) := by
+  obtain ⟨hlt, hH, hT, _⟩ := Sat.compose h k hh hk
+  rw [← hs] at hlt hH hT
+  have hr := Sat.rarityO_ok s hlt
+  rw [hH, hT] at hr
+  obtain ⟨h1, h2, h3, h4, h5, h6⟩ := SatSpec.rarity_iff h k
+  have hzero : s = 0 ↔ k = 0 ∧ h = 0 := by
+    constructor
+    · intro h0
+      rcases Nat.eq_zero_or_pos h with hz | hp
+      · subst hz; rw [Height.startingSat_zero] at hs; omega
+      · have := Height.startingSat_strict 0 h hp (by omega)
+        rw [Height.startingSat_zero] at this; omega
+    · rintro ⟨rfl, rfl⟩; rw [hs, Height.startingSat_zero]
+  rw [hr]
+  simp only [Outcome.ok.injEq]
+  exact ⟨trivial, h1, h2, h3, h4, h5, h6, h6.trans hzero.symm⟩
+
+/-- The rarity supply table (`Rarity::supply`) is the census of the sats below the supply: for
+every rarity `r`, the number of `s < SUPPLY` with `Sat(s).rarity() = r` is `r.supply()`.
+(Counted in closed form: block by block through the (height, offset) bijection; heights below
+6 930 000 by inclusion–exclusion over the multiples of 2016 / 210 000 / 1 260 000 with
+`#{h < n | d ∣ h} = ⌈n/d⌉`, `SatSpec.countBelow_multiples`; nothing is enumerated.) -/
+theorem c29_rarity_supply (r : Rarity) :
+    SatSpec.countBelow (fun s => decide (Rarity.ofSatO s = .ok r)) SUPPLY = Rarity.supply r ∧
+    ((List.range SUPPLY).filter (fun s => decide (Rarity.ofSatO s = .ok r))).length = Rarity.supply r :=
+  ⟨SatSpec.supply_table_O r,
+   (SatSpec.countBelow_eq_filter _ _).symm.trans (SatSpec.supply_table_O r)⟩
+
+/-- The charms ord reports for the `k`-th sat `s` of block `h` are those implied by `(s, h, k)`:
+the word is the specified one, `Sat::palindrome` does not overflow and is "the decimal digits read
+the same in both directions", and bit by bit: coin ⇔ `s` is a multiple of 10^8, nineball ⇔
+`h = 9`, palindrome, the rarity bit of `c29_rarity_classes`, and no other bit. -/
+theorem c29_charms (h k s : Nat) (hh : h < 6930000) (hk : k < Height.subsidy h)
+    (hs : s = Height.startingSat h + k) :
+    Sat.charmsO s = .ok (SatSpec.charms s h k) ∧
+    Sat.palindromeO s = .ok (SatSpec.isPalindrome s) ∧
+    ∀ c : Charm, (SatSpec.charms s h k).testBit c.bit =
+      match c with
+      | .coin => decide (s % 100000000 = 0)
+      | .nineball => decide (h = 9)
+      | .palindrome => SatSpec.isPalindrome s
+      | .uncommon => decide (SatSpec.rarity h k = .uncommon)
+      | .rare => decide (SatSpec.rarity h k = .rare)
+      | .epic => decide (SatSpec.rarity h k = .epic)
+      | .legendary => decide (SatSpec.rarity h k = .legendary)
+      | .mythic => decide (SatSpec.rarity h k = .mythic)
+      | _ => false := by
+  obtain ⟨hlt, hH, hT, _⟩ := Sat.compose h k hh hk
+  rw [← hs] at hlt hH hT
+  have hr := Sat.rarityO_ok s hlt
+  rw [hH, hT] at hr
+  have hp := Sat.palindromeO_ok s (Nat.lt_trans hlt (by decide))
+  have hnine : Sat.nineball s = decide (h = 9) := by
+    have := Sat.nineball_iff s hlt
+    rw [hH] at this
+    by_cases h9 : h = 9
+    · simp [h9, this.2 h9]
+    · have : ¬ Sat.nineball s = true := fun hc => h9 (this.1 hc)
+      simp [h9, this]
+  have hcoin : Sat.coin s = decide (s % 100000000 = 0) := by
+    have := Sat.coin_iff s
+    by_cases hc : s % 100000000 = 0
+    · simp [hc, this.2 hc]
+    · have : ¬ Sat.coin s = true := fun hx => hc (this.1 hx)
+      simp [hc, this]
+  have hw := Sat.charmsOf_eq_spec s h k
+  refine ⟨?_, hp, ?_⟩
+  · rw [Sat.charmsO_of s _ _ hp hr, hw]
+  · intro c
+    rw [← hw, Sat.charmsOf_testBit, hnine, hcoin]
+    cases c <;> rfl
 
 /-! Non-vacuity -/
 example : Height.startingSat 210000 = 1050000000000000 := by decide
 example : Height.subsidy 6929999 = 1 ∧ Height.subsidy 6930000 = 0 := by decide
 example : Height.subsidy 420000 = 1250000000 ∧ (5 : Nat) < Height.subsidy 420000 := by decide
 example : Sat.heightO SUPPLY = .panic "divzero@sat.height" := by decide
+
+
+/-! non-vacuity for the rarity / charm clauses: both paths of `common`, every class, the table
+sums to the supply, charm words of concrete sats -/
+-- fast path taken (not a multiple of 9765625), slow path in an early epoch (a common multiple of
+-- 9765625), slow path beyond epoch 9, and first sats of blocks
+example : Sat.common 1 = true ∧ Sat.common 9765625 = true ∧ Sat.common 2099999997689999 = false ∧
+    Sat.common 2098000000000000 = true ∧ Sat.common 5000000000 = false ∧ Sat.common 0 = false := by
+  decide
+example : (1 : Nat) < Epoch.startingSat 10 ∧ ¬ Epoch.subsidy 9 ∣ 1 := by decide
+example : Rarity.ofSatO 0 = .ok .mythic ∧ Rarity.ofSatO 1 = .ok .common ∧
+    Rarity.ofSatO 5000000000 = .ok .uncommon ∧
+    Rarity.ofSatO (Height.startingSat 2016) = .ok .rare ∧
+    Rarity.ofSatO (Height.startingSat 210000) = .ok .epic ∧
+    Rarity.ofSatO (Height.startingSat 1260000) = .ok .legendary := by decide
+example : (Rarity.all.map Rarity.supply).sum = SUPPLY := by decide
+example : SatSpec.countBelow (fun h => h % 7 == 0) 15 = 3 ∧ (15 + 7 - 1) / 7 = 3 := by decide
+-- sat 0: coin + mythic + palindrome; first sat of block 9: coin + nineball + uncommon
+example : Sat.charmsO 0 = .ok (2 ^ 0 + 2 ^ 11 + 2 ^ 13) ∧
+    Sat.charmsO 45000000000 = .ok (2 ^ 0 + 2 ^ 5 + 2 ^ 9) ∧ Sat.charmsO 45000000054 = .ok (2 ^ 5 + 2 ^ 13) := by
+  decide
 
 end Ord.C29
